@@ -160,38 +160,9 @@ Proof.
   - discriminate.
 Qed.
 
-(* ------------------------------------------------------------------ *)
-(** * Numeric canonical code (the RFC 1951 construction the format refers to):
-      count per length, first code per length, consecutive values in symbol
-      order.  Used by the emitter; [canonical_matches_tree] ties it to [build]. *)
-
-Definition count_len (lens : list Z) (l : Z) : Z :=
-  Z.of_nat (length (filter (fun x => x =? l) lens)).
-
-(** first code value of each length 1..15 (index 0 unused) *)
-Fixpoint first_codes (lens : list Z) (k : nat) (l : Z) (code : Z) : list Z :=
-  match k with
-  | O => []
-  | S k' => let code' := (code + (if l =? 0 then 0 else count_len lens l)) * 2 in
-            code' :: first_codes lens k' (l + 1) code'
-  end.
-
-(** code value of symbol number [i]: first code of its length + the number of
-    earlier symbols with the same length. *)
-Definition canon_code (lens : list Z) (i : nat) : Z * Z :=
-  let len := nth i lens 0 in
-  let fc := nth (Z.to_nat len) (0 :: first_codes lens 15 0 0) 0 in
-  (fc + count_len (firstn i lens) len, len).
-
 (** bits of a code word, most significant bit first *)
 Fixpoint msb_bits (n : nat) (v : Z) : bits :=
   match n with O => [] | S n' => Z.odd (v / 2 ^ Z.of_nat n') :: msb_bits n' v end.
-
-Definition canon_bits (lens : list Z) (sym : Z) : bits :=
-  match lens_items lens with
-  | [_] => []
-  | _ => let '(c, len) := canon_code lens (Z.to_nat sym) in msb_bits (Z.to_nat len) c
-  end.
 
 (* ------------------------------------------------------------------ *)
 (** * Reading code lengths *)
